@@ -5,6 +5,7 @@ import Pocket.Model.Store
 import Pocket.Model.Keys
 import Pocket.Model.EventMap
 import Pocket.Model.Verify
+import Pocket.Spec.AbsStore
 /-
 pocket-model: answers the line protocol of DESIGN.md Appendix B from the Lean model.
 The definitions executed here are the ones the theorems in Pocket/Thm are about.
@@ -407,12 +408,37 @@ def emAfter (em : EMap) (cmd : String) (s s' : Store) : EMap :=
       | none => em
   | _ => em
 
-partial def loop (h : IO.FS.Stream) (out : IO.FS.Stream) (s : Store) (em : EMap) : IO Unit := do
+/-- follow the ABSTRACT store (`Spec/AbsStore.lean`, the one the refinement theorems are about) through a request,
+independently of the concrete model -/
+def absAfter (ab : Abs) (cmd : String) (a : List String) : Abs :=
+  match cmd, a with
+  | "NEW", _ => {}
+  | "RMD", _ => {}
+  | "RBD", _ => absRebuild ab
+  | "STO", a =>
+    (match buildEvent a with
+     | some e => if tagsSize e.tags > 65535 then ab else (absStore ab e).2
+     | none => ab)
+  | "REM", [id] => (match unhex id with | some i => absRemove ab i | none => ab)
+  | "VAN", [pk] => (match unhex pk with | some k => absVanish ab k | none => ab)
+  | _, _ => ab
+
+/-- `SPC`: the abstract state in one line (retrievable ids, id markers, address markers with times, end of the log), and
+whether the concrete model's state still stands for it (`full_history_refines` says it always does) -/
+def spcLine (ab : Abs) (s : Store) : String :=
+  let live := joinOr (ab.live.map fun e => toHex e.id)
+  let di := joinOr (ab.delIds.map toHex)
+  let da := joinOr (ab.delAddrs.map fun ((k, au, d), t) => s!"{k}:{toHex au}:{toHex d}={t}")
+  let ok := if Abs.of s == ab then "" else " MODEL-INCONSISTENT abstract state differs from Abs.of (concrete state)"
+  s!"live={live} del={di} addr={da} end={ab.end}{ok}"
+
+partial def loop (h : IO.FS.Stream) (out : IO.FS.Stream) (s : Store) (em : EMap) (ab : Abs) : IO Unit := do
   let line ← h.getLine
   if line.isEmpty then return ()
   let line := line.trimAscii.toString
   let mut s := s
   let mut em := em
+  let mut ab := ab
   if line.isEmpty || line.startsWith "#" then
     out.putStrLn "#"
   else
@@ -422,6 +448,8 @@ partial def loop (h : IO.FS.Stream) (out : IO.FS.Stream) (s : Store) (em : EMap)
       if cmd == "MLN" then
         -- the file length, and a cross-check of the two models: the map's end marker is the store's end
         out.putStrLn (if em.marker = s.end then s!"{em.fileLen}" else s!"{em.fileLen} MODEL-INCONSISTENT marker={em.marker} end={s.end}")
+      else if cmd == "SPC" then
+        out.putStrLn (spcLine ab s)
       else
       match handleTypes cmd a with
       | some r => out.putStrLn r
@@ -429,12 +457,13 @@ partial def loop (h : IO.FS.Stream) (out : IO.FS.Stream) (s : Store) (em : EMap)
         match handleStore s cmd a with
         | some (s', r) =>
           em := emAfter em cmd s s'
+          ab := absAfter ab cmd a
           s := s'
           out.putStrLn r
         | none => out.putStrLn "bad-request"
     | [] => out.putStrLn "bad-request"
   out.flush
-  loop h out s em
+  loop h out s em ab
 
 def main : IO Unit := do
-  loop (← IO.getStdin) (← IO.getStdout) {} emFresh
+  loop (← IO.getStdin) (← IO.getStdout) {} emFresh {}
